@@ -334,7 +334,7 @@ def run(repo: Repo, rep: Report) -> None:  # noqa: F811
     for modname in sorted(m for m in repo.modules if m.startswith("rdflib.plugins.serializers.")):
         mod = repo.mod(modname)
         for q, f in mod.functions():
-            fl = [n for n in own_nodes(f) if isinstance(n, (ast.For, ast.AsyncFor))]
+            fl = sorted((n for n in own_nodes(f) if isinstance(n, (ast.For, ast.AsyncFor))), key=lambda n: (n.lineno, n.col_offset))
             if len(fl) < 2:
                 continue
             stale = dict((id(l), names_) for l, names_ in stale_loop_variable_reads(f))
